@@ -1,4 +1,5 @@
 """C18 — Line projection is closest point; reported line intersections lie on both lines."""
+import os
 import warnings
 from fractions import Fraction as Fr
 
@@ -17,7 +18,10 @@ RULE = ("seeded streams: projection (single / stacked / paired, dyadic grid poin
         "2^-45..2^20 for the projection forms (straddling Line's 1e-8 threshold, which is also probed at, one ulp below "
         "and one ulp above), extreme direction lengths 2^-1060..2^-480 and 2^480..2^1020 at unit-size positions "
         "(proj_*_extreme), arbitrary non-dyadic double lines meeting up to rounding (oracle only), extreme scales in the "
-        "quick tier; non-trivial = the call returned; distinct by hash of inputs")
+        "quick tier; plus oracle-only sweeps over ALL ordered pairs of lines through two distinct lattice points of "
+        "[-1,1]^3 (492 804 pairs) and [-2,2]^2 (360 000 pairs) in the thorough tier plus every 3rd pair of [-3,3]^2 "
+        "(1 843 968 of 5 531 904); every 23rd / 11th / 131st pair in the quick tier (counts in coverage.lattice_sweep_*); "
+        "non-trivial = the call returned; distinct by hash of inputs")
 TRUSTED = ["Coq 8.16.1 kernel, vm_compute for the correspondence evaluation",
            "axioms (Print Assumptions): ClassicalDedekindReals.sig_forall_dec, sig_not_dec, "
            "FunctionalExtensionality.functional_extensionality_dep, Classical_Prop.classic (all Coq stdlib Reals)",
@@ -39,6 +43,7 @@ ASSUMPTIONS = ["the real-number projection theorem cannot see overflow / underfl
                "the model is the code WITH fixes/C18-intersect-lines-sign-and-p0-on-line.diff and "
                "fixes/C18-intersect-2d-lines-determinant-test.diff applied"]
 SHARD = 100
+EXTRA_COVERAGE = {}   # filled by the exhaustive sweeps (run_impl of the sweep cases); copied into the evidence by the driver
 IMPORTS = [("PW.model", "M_line"), ("PW.proofs", "P_vec"), ("PW.proofs", "P_plane_xsect"), ("PW.proofs", "P_line")]
 
 
@@ -197,6 +202,143 @@ def _lattice_pair_2d(rng):
             return p0, q0, p1, q1
 
 
+# ---- exhaustive lattice sweeps (oracle only) ---------------------------------------------------------------------
+# Every ordered pair of lines through two distinct lattice points of a small box: 3-D [-1,1]^3 (27 points, 702 ordered
+# point pairs = lines with a distinguished (p, q), 492 804 ordered pairs of lines), 2-D [-2,2]^2 (25 points, 600 lines,
+# 360 000 pairs) and, sampled, [-3,3]^2 (49 points, 2352 lines, 5 531 904 pairs). The implementation is called on every pair; the verdict is computed for all pairs at once in exact
+# int64 arithmetic (cross / dot products of lattice vectors), the expected common point in binary64 from exact integers.
+
+
+def _sweep_lines(dim, box):
+    import itertools
+    lo, hi = box
+    pts = np.array(list(itertools.product(range(lo, hi + 1), repeat=dim)), dtype=np.int64)
+    idx = np.array([(i, j) for i in range(len(pts)) for j in range(len(pts)) if i != j], dtype=np.int64)
+    return pts, idx
+
+
+def _sweep_worker(args):
+    """call the implementation for line-0 indices `rows` against every selected line 1; NaN row = None"""
+    dim, box, rows, stride, offset = args
+    from polliwog.line import intersect_2d_lines, intersect_lines
+
+    fn = intersect_lines if dim == 3 else intersect_2d_lines
+    pts, idx = _sweep_lines(dim, box)
+    fpts = pts.astype(np.float64)
+    nl = len(idx)
+    out = []
+    with warnings.catch_warnings(), np.errstate(all="ignore"):
+        warnings.simplefilter("ignore")
+        for i in rows:
+            p0, q0 = fpts[idx[i, 0]], fpts[idx[i, 1]]
+            js = np.flatnonzero((i * nl + np.arange(nl)) % stride == offset)
+            res = np.full((len(js), dim), np.nan)
+            exc = None
+            for n_, j in enumerate(js):
+                try:
+                    r = fn(p0.copy(), q0.copy(), fpts[idx[j, 0]].copy(), fpts[idx[j, 1]].copy())
+                except Exception as e:  # noqa
+                    exc = (j, type(e).__name__)
+                    r = None
+                if r is not None:
+                    res[n_] = r
+            out.append((i, js, res, exc))
+    return out
+
+
+def _run_sweep(dim, box, stride, offset):
+    import multiprocessing
+    import time
+
+    t0 = time.time()
+    box = tuple(box)
+    offset %= stride
+    pts, idx = _sweep_lines(dim, box)
+    nl = len(idx)
+    rows = list(range(nl))
+    nproc = max(1, min(8, (os.cpu_count() or 2) // 2))
+    chunks = [(dim, box, rows[k::nproc * 4], stride, offset) for k in range(nproc * 4)]
+    try:
+        with multiprocessing.get_context("fork").Pool(nproc) as pool:
+            parts = pool.map(_sweep_worker, chunks)
+    except Exception:  # no fork / no pool: serial
+        parts = [_sweep_worker(ch) for ch in chunks]
+    I, J, R, excs = [], [], [], []
+    for part in parts:
+        for i, js, res, exc in part:
+            I.append(np.full(len(js), i, dtype=np.int64))
+            J.append(np.asarray(js, dtype=np.int64))
+            R.append(res)
+            if exc:
+                excs.append((i,) + exc)
+    I, J = np.concatenate(I), np.concatenate(J)
+    R = np.vstack(R)
+    P0, Q0, P1, Q1 = pts[idx[I, 0]], pts[idx[I, 1]], pts[idx[J, 0]], pts[idx[J, 1]]
+    returned = ~np.isnan(R).any(axis=1)
+    finite = np.isfinite(R).all(axis=1)
+    if dim == 3:
+        e, f, g = P0 - Q0, P1 - Q1, P0 - P1
+        k, h = np.cross(f, e), np.cross(f, g)
+        kk, gk, hk = (k * k).sum(1), (g * k).sum(1), (h * k).sum(1)
+        par, hz = kk == 0, (h == 0).all(1)
+        unique = ~par & (gk == 0)
+        skew = gk != 0
+        pdist, coinc = par & ~hz, par & hz
+        with np.errstate(all="ignore"):
+            M = P0 - (hk / np.where(kk == 0, 1, kk))[:, None] * e          # P0 - (h.k / k.k) e
+        # M == X  <=>  k.k (P0 - X) == h.k e   (integers)
+        def m_is(X):
+            return unique & (kk[:, None] * (P0 - X) == hk[:, None] * e).all(1)
+        off_line0 = np.abs(np.cross(np.nan_to_num(R) - P0, e)).max(1) > 1e-9     # used for coincident lines only
+    else:
+        d0, d1, w = Q0 - P0, Q1 - P1, P1 - P0
+        det = d0[:, 0] * d1[:, 1] - d0[:, 1] * d1[:, 0]
+        par = det == 0
+        unique, skew = ~par, np.zeros(len(I), dtype=bool)
+        wz = (w[:, 0] * d0[:, 1] - w[:, 1] * d0[:, 0]) == 0
+        pdist, coinc = par & ~wz, par & wz
+        tnum = w[:, 0] * d1[:, 1] - w[:, 1] * d1[:, 0]
+        with np.errstate(all="ignore"):
+            M = P0 + (tnum / np.where(det == 0, 1, det))[:, None] * d0
+        def m_is(X):
+            return unique & (det[:, None] * (X - P0) == tnum[:, None] * d0).all(1)
+        Rz = np.nan_to_num(R) - P0
+        off_line0 = np.abs(Rz[:, 0] * d0[:, 1] - Rz[:, 1] * d0[:, 0]) > 1e-9
+    wrong_point = unique & returned & ~(finite & (np.abs(np.nan_to_num(R) - M).max(1) <= 1e-9 * (1 + np.abs(M).max(1))))
+    bad = {
+        "unique common point not returned (None)": unique & ~returned,
+        "returned point is not the common point": wrong_point,
+        "a point returned for skew lines": skew & returned,
+        "a point returned for parallel distinct lines": pdist & returned,
+        "a point off the line returned for coincident lines": coinc & returned & (~finite | off_line0),
+    }
+    failures, nfail = [], 0
+    for what, mask in bad.items():
+        nfail += int(mask.sum())
+        for n_ in np.flatnonzero(mask)[:3]:
+            failures.append({"what": what, "p0": P0[n_].tolist(), "q0": Q0[n_].tolist(), "p1": P1[n_].tolist(),
+                             "q1": Q1[n_].tolist(), "returned": None if not returned[n_] else R[n_].tolist(),
+                             "expected": M[n_].tolist() if unique[n_] else None})
+    for i, j, name in excs[:3]:
+        nfail += 1
+        failures.append({"what": "exception " + name, "p0": pts[idx[i, 0]].tolist(), "q0": pts[idx[i, 1]].tolist(),
+                         "p1": pts[idx[j, 0]].tolist(), "q1": pts[idx[j, 1]].tolist(), "returned": None, "expected": None})
+    # incidence patterns between the four defining points and the common point
+    eq = lambda A, B: (A == B).all(1)  # noqa
+    bits = [eq(P0, P1), eq(P0, Q1), eq(Q0, P1), eq(Q0, Q1), m_is(P0), m_is(Q0), m_is(P1), m_is(Q1)]
+    cls = unique * 1 + skew * 2 + pdist * 3 + coinc * 4
+    code = cls.astype(np.int64)
+    for b in bits:
+        code = code * 2 + b
+    lo, hi = box
+    return {"box": "[%d,%d]^%d" % (lo, hi, dim), "points": int(len(pts)), "lines_ordered_point_pairs": int(nl),
+            "pairs": int(len(I)), "all_pairs": int(nl * nl), "exhaustive": bool(stride == 1), "stride": stride,
+            "by_class": {"unique_common_point": int(unique.sum()), "skew": int(skew.sum()),
+                         "parallel_distinct": int(pdist.sum()), "coincident": int(coinc.sum())},
+            "returned_a_point": int(returned.sum()), "incidence_patterns": int(len(np.unique(code))),
+            "failing_pairs": nfail, "failures": failures, "seconds": round(time.time() - t0, 1)}
+
+
 def gen_cases(rng, n, tier):
     cases = []
     for _ in range(n):
@@ -315,6 +457,15 @@ def gen_cases(rng, n, tier):
         else:
             p0, q0, p1, q1 = _lattice_pair_2d(rng)
             cases.append({"kind": "isect2_lattice", "p0": p0, "q0": q0, "p1": p1, "q1": q1, "int": rng.random() < 0.15})
+    if tier in ("quick", "thorough"):
+        # exhaustive sweeps over small lattice boxes (oracle only): all pairs in the thorough tier, every 23rd / 11th
+        # pair (offset drawn from the seed) in the quick tier
+        # 2-D additionally a larger box, sampled: [-3,3]^2 is the smallest box in which np.linalg.solve's inexact LU
+        # pivot showed on parallel lines (800 of its 5 531 904 pairs)
+        s3, s2, s2b = (1, 1, 3) if tier == "thorough" else (23, 11, 131)
+        cases.append({"kind": "sweep3_lattice_box", "dim": 3, "box": [-1, 1], "stride": s3, "offset": rng.randrange(s3)})
+        cases.append({"kind": "sweep2_lattice_box", "dim": 2, "box": [-2, 2], "stride": s2, "offset": rng.randrange(s2)})
+        cases.append({"kind": "sweep2_lattice_box3", "dim": 2, "box": [-3, 3], "stride": s2b, "offset": rng.randrange(s2b)})
     return cases
 
 
@@ -334,6 +485,10 @@ def run_impl(c):
         with warnings.catch_warnings(), np.errstate(all="ignore"):
             warnings.simplefilter("ignore")
             k = c["kind"]
+            if k.startswith("sweep"):
+                o = _run_sweep(c["dim"], c["box"], c["stride"], c["offset"])
+                EXTRA_COVERAGE["lattice_sweep_%dd_box%d" % (c["dim"], c["box"][1])] = {kk_: v for kk_, v in o.items() if kk_ != "failures"}
+                return o
             def line_form(r, a, pts):
                 # Line refuses almost-zero directions (ValueError): recorded, the model goes through the constructor too
                 return call_impl(lambda: Line(r, a).project(pts).tolist())
@@ -397,7 +552,7 @@ def coq_case(c, o):
         return "CFromPoints %s %s %s" % (qv(c["p1"]), qv(c["p2"]), obs)
     if isinstance(o, dict) and "raise" in o:
         return "CIsect2 (0, 0) (0, 0) (0, 0) (0, 0) [FNan]"      # unexpected exception: make the case fail in Coq
-    if k == "isect3_generic_float":
+    if k == "isect3_generic_float" or k.startswith("sweep"):
         return "CSkip"
     if k.startswith("proj_single"):
         m = o["meth"]
@@ -509,6 +664,16 @@ def _failures(c, o):
         return out
     if isinstance(o, dict) and "raise" in o:
         return [("other", "unexpected exception %s: %s" % (o["raise"], o.get("msg")))]
+    if k.startswith("sweep"):
+        if o["pairs"] == 0 or (o["exhaustive"] and o["pairs"] != o["all_pairs"]):
+            return [("other", "lattice sweep %s visited %d of %d pairs" % (o["box"], o["pairs"], o["all_pairs"]))]
+        if not o["failing_pairs"]:
+            return []
+        f = o["failures"][0]
+        name = "intersect_lines" if c["dim"] == 3 else "intersect_2d_lines"
+        return [("other", "lattice sweep %s: %d of %d pairs fail; first: %s(%r, %r, %r, %r) -> %r: %s%s" % (
+            o["box"], o["failing_pairs"], o["pairs"], name, f["p0"], f["q0"], f["p1"], f["q1"], f["returned"], f["what"],
+            "" if f["expected"] is None else " (common point %r)" % (f["expected"],)))]
     if not o["args_unchanged"]:
         return [("other", "an argument array was modified")]
     if k.startswith("proj_single") or k.startswith("proj_stack"):
